@@ -1,6 +1,7 @@
 import CanVerif.Model.DbcPrep
 import CanVerif.Props.C05i
 import CanVerif.Proofs.DbcText
+import CanVerif.Proofs.DbcTablesRT
 /-!
 # C05 — a name longer than 32 characters: what the writer does to it and what the reader makes of that
 
@@ -147,6 +148,43 @@ theorem other_attribute_untouched (defs : List RDef) (lvl : Level) (k v : Str)
     stripStrings defs lvl [(k, v)] = [(k, v)] := by
   simp only [stripStrings, List.map_cons, List.map_nil, hdef]
   rfl
+
+/-- the text of a natural number is read as that number -/
+theorem strToDec_nat (n : Nat) : strToDec (natDigits n) = some ⟨false, n, 0⟩ := by
+  have h := Num.strToDec_shape false (natDigits n) [] [] n 0 (Num.natDigits_allDig n) (by intro c hc; simp at hc) (Num.natDigits_ne_nil n)
+    (by simpa using Num.digitsToNat_natDigits' n) (Or.inl ⟨rfl, rfl⟩)
+  simpa [Num.signStr, Num.dotStr] using h
+
+theorem stripWs_natDigits (n : Nat) : stripWs (natDigits n) = natDigits n := by
+  have hall := Num.natDigits_allDig n
+  have hne := Num.natDigits_ne_nil n
+  obtain ⟨a, ha⟩ : ∃ a, (natDigits n).head? = some a := by
+    cases h : natDigits n with
+    | nil => exact absurd h hne
+    | cons x r => exact ⟨x, rfl⟩
+  obtain ⟨b, hb⟩ : ∃ b, (natDigits n).getLast? = some b := by
+    cases h : (natDigits n).getLast? with
+    | none => simp [List.getLast?_eq_none_iff] at h; exact absurd h hne
+    | some x => exact ⟨x, rfl⟩
+  exact CanVerif.Dbc.stripWs_id _ a b ha hb
+    (FileProofs.isDig_props a (hall a (List.mem_of_mem_head? ha))).2.1 (FileProofs.isDig_props b (hall b (List.mem_of_getLast? hb))).2.1
+
+/-- **cycle times go out and come back**: the writer prints the number, the reader's post-processing converts the text of the attribute -
+`int(float(..))` for a frame, `int(..)` for a signal - into the same number -/
+theorem cycle_time_roundtrip (n : Nat) (attrs : List (Str × Str)) :
+    frameCycle (assocSet attrs "GenMsgCycleTime".toList (natDigits n)) = n ∧
+    sigCycle (assocSet attrs "GenSigCycleTime".toList (natDigits n)) = n := by
+  constructor
+  · unfold frameCycle
+    rw [lookup_assocSet]
+    simp [floatTextToInt, stripWs_natDigits, strToDec_nat]
+  · unfold sigCycle
+    rw [lookup_assocSet]
+    simp [FileProofs.pyIntKey_natDigits]
+
+/-- a cycle time attribute that is no number is ignored -/
+example : frameCycle [("GenMsgCycleTime".toList, "abc".toList)] = 0 ∧ sigCycle [("GenSigCycleTime".toList, "2.5".toList)] = 0 ∧
+    frameCycle [("GenMsgCycleTime".toList, "1e3".toList)] = 1000 ∧ frameCycle [("GenMsgCycleTime".toList, "12.9".toList)] = 12 := by decide +kernel
 
 /-- a name of at most 32 characters is left alone by the writer -/
 theorem short_name_untouched (attr : String) (name : Str) (attrs : List (Str × Str)) (h : name.length ≤ 32) :
